@@ -59,9 +59,12 @@ def attach():
     MapfileToDict._mf_c02 = True
 
 
-def judge(ctx, eng, nodes, label, slot=None):
+QUOTE_SURFACES = [render.CANONICAL, render.Surface(quote="sq", name="single-quoted"), render.Surface(quote="random", name="mixed-quotes")]
+
+
+def judge(ctx, eng, nodes, label, slot=None, surface=None):
     res = ctx.res
-    text = render.render(nodes, render.CANONICAL).text
+    text = render.render(nodes, surface or render.CANONICAL, ctx.rng("c02-quote", label, slot)).text
     case = {"workload": label, "text": text}
     res.count("documents_judged")
     res.seen("documents", hashlib.sha1(text.encode()).hexdigest()[:12])
@@ -103,7 +106,9 @@ def run(ctx):
             res.count("vocab_docs")
             res.seen("slots", f"{o}.{k}:{a.kind}")
             res.seen("slot-positions", f"{o}.{k}:{a.kind}:{pos}")
-            judge(ctx, eng, [node], "vocab", slot=f"{o}.{k}:{a.kind}:{pos}")
+            # quoted values (strings, hex colours, key-value pairs) are written with both quote characters over the sweep
+            judge(ctx, eng, [node], "vocab", slot=f"{o}.{k}:{a.kind}:{pos}",
+                  surface=QUOTE_SURFACES[("only", "first", "middle", "last").index(pos) % 3])
     logs.take()
     # ---- W-gen: random documents
     n = ctx.n(1600, 45000)
@@ -134,7 +139,7 @@ def run(ctx):
         if kv_dups or attr_dups:
             res.count("dup_key_docs")
         logs.take()
-        d = judge(ctx, eng, nodes, "gen")
+        d = judge(ctx, eng, nodes, "gen", surface=QUOTE_SURFACES[j % 3])
         if d is not None:
             warns = [m for lv, m in logs.take() if lv == "WARNING" and "duplicate key" in m]
             res.count("dup_warnings_expected", kv_dups)
